@@ -4,16 +4,16 @@ import json, os, subprocess
 HERE = os.path.dirname(os.path.dirname(os.path.abspath(__file__)))
 
 CHECKS = {
-    "C01": dict(tech="TLC-generated programs (MC_Builder Rich) replayed on the real code with the model's ideal verdict; TLC trace validation (IdealCompleteness) of recorded toy-curve runs",
+    "C01": dict(tech="TLC-generated programs (MC_Builder Rich) replayed on the real code with the model's ideal verdict; TLC trace validation (IdealCompleteness) of recorded toy-curve runs, incl. random programs with free constraints over small values (the specification's Satisfied as the oracle)",
                 text="Every program of the bounded TLA+ builder model whose model assignment satisfies all constraints is replayed through the real Prover/Verifier on all three curves and must be accepted; recorded runs of random honest programs on toy curves are checked by TLC against the specification's statement semantics.",
                 note="bounded call depth; ideal verdicts on 256-bit curves; trusted: TLC, arkworks, traced Merlin copy (sponge untouched)", ref="5 C01"),
-    "C02": dict(tech="TLC-generated single-deviation programs replayed on the real code (must be rejected); TLC trace validation (IdealSoundness) on toy31723 with re-run of lucky accepts",
+    "C02": dict(tech="TLC-generated deviation programs (offsets of +-1 and confusion deviations: the constraint would hold if a wire were its neighbour) replayed on the real code (must be rejected); position sweeps (every row of a large statement, every gate of a two-phase circuit); TLC trace validation (IdealSoundness) on toy31723 of bad-witness programs and of random programs with free constraints over small values, with re-run of lucky accepts",
                 text="Every single violated constraint or gate of every bounded program is pushed through the unmodified proving code (guarded gate-overwrite hook) and must be rejected on all curves; the model's DeviationIffUnsatisfied invariant ties the expectation to the statement semantics.",
-                note="bounded call depth; one deviation per program; Schwartz-Zippel luck on the toy curve handled by re-running with fresh randomness", ref="5 C02"),
+                note="bounded call depth; one or two deviations per program; Schwartz-Zippel luck on the toy curve handled by re-running with fresh randomness", ref="5 C02"),
     "C03": dict(tech="TLC trace validation on toy curves: the verifier's verdict is recomputed from the recorded statement, proof and challenges (combined check, unbatched relations with explicit folding), including proofs crafted with the combiner the verifier derived for the unaltered proof (combiner attack)",
                 text="For every verify call recorded on toy7/toy79/toy31723 (honest, bad-witness and tampered proofs) TLC recomputes the specification's verdict, the residuals Tres and Ires of the unbatched relations and the combined residual, and demands verdict equality, mega = Ires + r*Tres and verdict = relations up to the single colliding r; small groups make a mis-weighted or dropped term visible.",
                 note="toy curves only (exact recomputation needs P^2 < 2^31); the library code is curve-generic, so the same monomorphised logic runs on the real curves; challenge scalars taken as derived by the code (hook H3)", ref="5 C03"),
-    "C05": dict(tech="replay of every single verifier-side statement/context deviation on the real code + TLC trace validation on toy31723 (StatementBinding invariant over the recorded calls of both roles, exact verdict of the deviating statement)",
+    "C05": dict(tech="replay of every single verifier-side statement/context deviation on the real code (seven base statements, a 300/1100-row statement with every row deviating in turn, a statement with 300/1100 commitments) + TLC trace validation on toy31723 (StatementBinding invariant over the recorded calls of both roles, exact verdict of the deviating statement)",
                 text="For seven base statements every single deviation of label, application data (before construction, in phase 1, inside a callback), commitments (value, blinding, extra, missing, reordered, transposed), coefficients and constants (appended, prepended, changed in place, spelt as a separate term after / before the satisfying constant), an empty randomized closure on one side only, and the two Pedersen bases is run: rejected on the 256-bit curves; on toy31723 TLC rebuilds both statements from the recorded calls and requires equal transcripts, satisfied verifier constraints and agreeing bases whenever the code accepts.",
                 note="single deviations; ideal verdicts on 256-bit curves; toy luck handled by re-running under fresh seeds", ref="5 C05"),
     "C06": dict(tech="TLC trace validation of traced-Merlin operation logs of both roles against the specification's operation schedule (order-preserving embedding), RoleSync invariant",
@@ -22,7 +22,7 @@ CHECKS = {
     "C04": dict(tech="TLC model checking of EveryFieldWeighted/EveryFieldAbsorbed on the verifier model (MC_Tamper) + replay of every (shape, field, alteration) on the real code + TLC trace validation on toy31723 (IdealIntegrity over the code's verdicts; IntegrityOrder: every proof element absorbed before each later challenge, the fork's combiner r included) + exhaustive single-bit flips",
                 text="Every field of the proof is shown to carry a non-zero weight and to be absorbed before the next challenge in the model; every generated alteration of honest one- and two-phase proofs and every single-bit flip of their encodings must be rejected at decoding or verification (or decode to the identical object) on all curves.",
                 note="n <= 5 (9); 2 (9) encodings per curve for the bit sweep; toy verdicts exact", ref="5 C04"),
-    "C07": dict(tech="TLC model checking of BatchIff/BatchCorrelated over F_7 (MC_Batch, with a failing shared-weight spec mutant) + replay of every batch pattern and order on the real batch_verify + TLC trace validation of the batch verdict from recorded weights on toy curves",
+    "C07": dict(tech="TLC model checking of BatchIff/BatchCorrelated over F_7 (MC_Batch, with a failing shared-weight spec mutant) and of batch_verify over the full verifier algebra (MC_BatchSys: members are complete runs of System; BatchSysIff, BatchSysFirst, PairOpposite) + replay of every batch pattern and order on the real batch_verify + TLC trace validation of the batch verdict from recorded weights on toy curves",
                 text="Every pattern of valid/tampered/bad-witness/+d/-d members up to the bound, in every order, and larger batches with one invalid member per position and an embedded +-d pair, run through the real batch_verify: the verdict must equal the conjunction of individual verdicts on the 256-bit curves and the specification's weighted-residual verdict on toy curves.",
                 note="patterns <= 3 (4) members, all orders for <= 3; batches of 6 (12) and the empty batch; weights recovered from the seeded caller RNG; a batch accepted by coincidence on a toy group must repeat under two other weight seeds to count", ref="5 C07"),
     "C08": dict(tech="TLC enumeration of structurally arbitrary proofs (MC_Hostile: TotalVerifier, ShapeGuardExact) + replay of every grid point through from_bytes/verify under catch_unwind + TLC trace validation of the exact verdict on toy31723 + seeded byte mutations with an allocation meter",
@@ -31,13 +31,13 @@ CHECKS = {
     "C09": dict(tech="TLC model checking of NonceInjective/BlindingPresent on the reference prover (MC_Hiding) + TLC trace validation: the emitted proof equals the reference prover's output on the recorded RNG stream, RNG construction operations + differential runs on the real curves",
                 text="On toy curves every proof field is recomputed by TLC from the witness, the recorded transcript-RNG stream and the challenges, so each blinding scalar is shown to be its own fresh draw and the draw count is exact; the RNG must be built from a transcript fork, one rekey per commitment blinding and 32 external bytes; on the 256-bit curves proofs under different external seeds share no component outside the statement-fixed ones.",
                 note="which draw plays which role is found by intervention on the RNG stream (traced Merlin copy) and must be a bijection; the draw order is not assumed; value-level part on toy31723 only (generators coincide on toy79); shapes n1<=3 (5), n2<=2 (4) in the model", ref="5 C09"),
-    "C10": dict(tech="TLC model checking of the inner-product argument (MC_IPP: exhaustive over F_7, sampled at P=31723 for k<=7) + TLC trace validation of create/verify on toy curves + replay of TLC-chosen instance patterns on the real curves",
+    "C10": dict(tech="TLC model checking of the inner-product argument (MC_IPP: exhaustive over F_7, sampled at P=31723 for k<=7) + TLC trace validation of create/verify on toy curves + replay of TLC-chosen instance patterns on the real curves, incl. openings adapted to the round challenges the code derived (frozen-challenge openings, hook H3)",
                 text="Completeness, equivalence with explicit folding, rejection classes and the unrolled-first-round identity are model-checked; every create and verify run on toy curves through the guarded re-export is recomputed by TLC field by field (L, R, a, b, round count, verdict, transcript operations); the same instance patterns run on the 256-bit curves with ideal verdicts.",
                 note="k <= 5 quick / 7 thorough; toy exactness needs P^2 < 2^31; zero challenges on toy curves are degenerate events", ref="5 C10"),
     "C11": dict(tech="TLC model checking of the decoder state machine (Codec/MC_Codec) and of the composed machine (MC_Library: EncodeLaw, HostileStream, TrailingIgnored) + one generated test per (k, prefix length) and per (token, invalid class) run through the real from_bytes + TLC trace validation of recorded byte-level sessions (to_bytes token stream, adversarial bytes, from_bytes) against Library.tla on toy curves",
                 text="Size law, determinism, re-encode equality and equal verdict are checked per circuit shape; every strict prefix and every token position x invalid class (scalar >= modulus, off-curve, non-canonical, outside the prime-order subgroup) of honest encodings must yield FormatError; trailing bytes must decode to the identical proof.",
                 note="k <= 3 (4); per-curve token sizes; arkworks' unchecked decoder is the oracle for 'not a curve point'", ref="5 C11"),
-    "C12": dict(tech="TLC enumeration of all capacity histories and views (MC_Gens: HistoryIndependent, ViewPartyMajor; MC_Library: ChainIsGT, ChainGrows) + execution of every history and view on the real generator tables + pinned digests + TLC trace validation of recorded table lives of both roles against Library.tla (every table and view a window of one generator function per trace file; GensBound at prove / verify)",
+    "C12": dict(tech="TLC enumeration of all capacity histories and views (MC_Gens: HistoryIndependent, ViewPartyMajor; MC_Library: ChainIsGT, ChainGrows) + execution of every history and view on the real generator tables + pinned digests + process lives (MC_Process: every order of uses of the three curves within one process) + TLC trace validation of recorded table lives of both roles against Library.tla (every table and view a window of one generator function per trace file; GensBound at prove / verify)",
                 text="Every history of new/increase_capacity/serialise-deserialise/clone within the bounds and every (n, m) view is executed on the real tables and compared entry by entry with the abstract chain; distinctness, non-identity, prime order and bit-for-bit digests from the reference revision are checked on large tables.",
                 note="capacities <= 4 (6), parties <= 2 (3), <= 3 (4) operations in the enumeration; recorded lives up to 6 (10) operations, capacities to 16 (32); every recorded view is also walked through nth / skip / step_by / count / last / size_hint; digests pinned in fixtures/gens_digests.json", ref="5 C12"),
     "C13": dict(tech="TLC model checking of the Pedersen laws over F_7 + TLC trace validation of every (v, r) on toy7/toy79 + law instances on the real curves from TLC-chosen value-class patterns",
@@ -46,10 +46,10 @@ CHECKS = {
     "C15": dict(tech="TLC model checking of LCDenotation over all expression trees (MC_LC) + replay of every tree built with the real operators (accept at the value, reject off by one) + TLC trace validation on toy curves",
                 text="Every expression tree up to the depth bound is enumerated by TLC, the specification's transcription of each operator impl is checked against the tree's meaning, and each tree is built with the real operators and constrained to its value (must verify) and to its value plus one (must not) on all curves.",
                 note="depth 1 (all leaf kinds) quick, depth 2 thorough; real-curve constants computed by the harness evaluator, which TLC cross-checks on toy runs", ref="5 C15"),
-    "C17": dict(tech="TLC enumeration of the full (n1, n2, capP, capV) grid with ThresholdExact on the protocol model's guards and of table histories in the composed machine (MC_Library: CapLawP, CapLawV) + replay of every grid point on the real code (prove, verify, batch_verify at every shared capacity) + TLC trace validation of recorded sessions whose capacity is the state of a generator table (capacity error iff table capacity < padded size)",
+    "C17": dict(tech="TLC enumeration of the full (n1, n2, capP, capV) grid (gates by allocate_multiplier, and with the last gate of a phase a half-open single allocation) with ThresholdExact on the protocol model's guards and of table histories in the composed machine (MC_Library: CapLawP, CapLawV) + replay of every grid point on the real code (prove, verify, batch_verify at every shared capacity) + TLC trace validation of recorded sessions whose capacity is the state of a generator table (capacity error iff table capacity < padded size)",
                 text="The whole grid is enumerated; the model's expected result (ok / InvalidGeneratorsLength) for prove and verify at each point is compared with the real code on all curves, panics are violations, and proofs made at different sufficient capacities with the same seed must be byte-identical.",
                 note="grid (0..5)^2 x (0..9)^2 quick, (0..9)^2 x (0..17)^2 thorough", ref="5 C17"),
-    "C16": dict(tech="TLC model checking of the lock-step builder model (MC_Builder) + replay of every generated call sequence on the real Prover and Verifier",
+    "C16": dict(tech="TLC model checking of the lock-step builder model (MC_Builder) + replay of every generated call sequence on the real Prover and Verifier, also under other assignments (zeros, ones, minus ones: handles do not depend on values)",
                 text="All call sequences up to the bound are enumerated by TLC (mirror/pending/error invariants) and each is replayed on the real code comparing handles, error kinds and gate counts call by call in both phases.",
                 note="bounded call depth (6-8 for invariants, 4-5 for replay); second-phase calls placed in the first callback", ref="5 C16"),
     "C18": dict(tech="fixtures recorded from the reference revision re-verified by the current code (verify-only) + pinned generator digests + TLC trace validation of the reference revision's recorded traces and of fresh traces against the same specification (transcript equality)",
